@@ -90,11 +90,84 @@ func runGoCancel(c *core.Ctx) {
 					}
 				}
 			})
+			// … or it can only leave through a `<-ctx.Done()` case of that very context: it ends
+			// because the session was cancelled, a cancel of its own would be a no-op
+			if !okDefer && exitsOnlyOnDone(cl, ws) {
+				okDefer = true
+			}
 			c.Check(okDefer, nil, fname(c, fn), fmt.Sprintf("go#%d/defer-cancel", n), P.Pos(g.Pos()),
-				"the goroutine defers the cancel of the session context: its exit ends its siblings",
+				"the goroutine defers the cancel of the session context (or returns only once that context is done): its exit ends its siblings",
 				"a goroutine started here does not defer cancel(): when it exits (peer gone, inbound closed) its sibling goroutines and the inner handler keep running")
 		})
 	}
+}
+
+// exitsOnlyOnDone: every return of the goroutine body is dominated by the case block of a
+// `<-ctx.Done()` select state whose context is the result of one of the enclosing function's
+// context.With… calls (ws), and nothing in the body can panic its way out through a call of cancel.
+func exitsOnlyOnDone(cl *ssa.Function, ws []*ssa.Call) bool {
+	var doneBlocks []*ssa.BasicBlock
+	for _, b := range cl.Blocks {
+		for _, in := range b.Instrs {
+			sel, ok := in.(*ssa.Select)
+			if !ok {
+				continue
+			}
+			for i, st := range sel.States {
+				if st.Dir != types.RecvOnly {
+					continue
+				}
+				ctxv, isDone := an.IsCtxDone(st.Chan)
+				if !isDone {
+					continue
+				}
+				// the context is (a capture of) result #0 of a With… call of the parent
+				root := resolveFree(ctxv)
+				if u, isU := root.(*ssa.UnOp); isU && u.Op == token.MUL {
+					if a := an.ResolveAlloc(u.X); a != nil {
+						if sts := an.StoresTo(a); len(sts) >= 1 {
+							root = sts[len(sts)-1].Val
+						}
+					}
+				}
+				ex, isEx := root.(*ssa.Extract)
+				if !isEx || ex.Index != 0 {
+					continue
+				}
+				mine := false
+				for _, w := range ws {
+					if ex.Tuple == ssa.Value(w) {
+						mine = true
+					}
+				}
+				if !mine {
+					continue
+				}
+				if cb := an.SelectCaseBlock(sel, i); cb != nil {
+					doneBlocks = append(doneBlocks, cb)
+				}
+			}
+		}
+	}
+	if len(doneBlocks) == 0 {
+		return false
+	}
+	rbs := an.ReturnBlocks(cl)
+	if len(rbs) == 0 {
+		return false
+	}
+	for _, rb := range rbs {
+		ok := false
+		for _, db := range doneBlocks {
+			if db == rb || db.Dominates(rb) {
+				ok = true
+			}
+		}
+		if !ok {
+			return false
+		}
+	}
+	return true
 }
 
 func runLoopExit(c *core.Ctx) {
